@@ -5,6 +5,7 @@ from __future__ import annotations
 
 import itertools
 import re
+import tempfile
 
 from .common import Ctx, InfraError, ast_hashes, call_with_timeout, kill_descendants, run_check
 
@@ -203,8 +204,13 @@ def body(ctx: Ctx):
 
         def go():
             out = []
+            # every second executor has a cache directory: presets must work the same on the cached path (each call of this
+            # part is a cache miss: distinct arguments)
+            extra_kw = {"cache_directory": tempfile.mkdtemp(prefix="vh_c15_")} if k % 2 == 1 or k % 4 == 2 else {}
+            if extra_kw:
+                ctx.count("executor_with_cache_directory")
             exe = executorlib.Executor(max_workers=1, backend="local", block_allocation=True,
-                                       init_function=init, disable_dependencies=bool(k % 2))
+                                       init_function=init, disable_dependencies=bool(k % 2), **extra_kw)
             try:
                 pin = exe.submit(_where).result(timeout=60)
                 for c in calls:
